@@ -163,6 +163,11 @@ struct Stats {
     out_drops: AtomicU32,
     /// epoch in which a cancelling operation (handle drop / cancel) returned; u64::MAX = none
     cancelled_epoch: AtomicU64,
+    /// the task was polled while a handle drop / cancel from another thread was under way
+    polled_during_cancel: AtomicBool,
+    /// cross-thread wakes of this task begun / returned (a cancel that overlaps one races with it)
+    wakes_begun: AtomicU32,
+    wakes_returned: AtomicU32,
     /// number of completed wake deliveries per step index
     woken: [AtomicU32; 8],
 }
@@ -608,6 +613,26 @@ fn body(prog: &Program) {
             }
             let left = world.jobs_left.load(SeqCst);
             if left == 0 {
+                // every handle job is done: a task whose handle was dropped or cancelled has been cancelled for
+                // good, and the executor has had every notification it will ever get: its future is gone by now,
+                // not only when the executor is torn down
+                for (i, plan) in prog.tasks.iter().enumerate() {
+                    let cancelled = matches!(plan.handle, Handle::DropHome(_) | Handle::DropRemote(_) | Handle::CancelRemote(_));
+                    if cancelled && stats[i].fut_drops.load(SeqCst) == 0 {
+                        // (kept apart, see known_findings.txt: a cancel from another thread that races with a poll or
+                        // a wake of the task)
+                        let raced = stats[i].polled_during_cancel.load(SeqCst);
+                        sim::raise(
+                            if raced { "cancelled-task-kept-after-racing-poll" } else { "cancelled-task-kept" },
+                            format!(
+                                "the handle of task {i} was {:?} and the executor is quiescent (nothing runnable, every wake and notification processed), but the task's future has not been dropped (polled {} times{}); it would only go with the executor",
+                                plan.handle,
+                                stats[i].polls.load(SeqCst),
+                                if raced { "; while the cancel was under way on the other thread the task was polled or another thread was waking it" } else { "" }
+                            ),
+                        );
+                    }
+                }
                 break;
             }
             if world.blocked.load(SeqCst) == left {
@@ -709,6 +734,7 @@ fn deliver(msg: Msg, stats: &[Arc<Stats>]) {
     sim::log(|| format!("thread {}: waking task {task} (step {step}, {style:?})", simsched::me()));
     // the event happens, then the wake
     stats[task].woken[step].fetch_add(1, SeqCst);
+    stats[task].wakes_begun.fetch_add(1, SeqCst);
     match style {
         WakeStyle::Wake => waker.wake(),
         WakeStyle::ByRef => {
@@ -721,7 +747,20 @@ fn deliver(msg: Msg, stats: &[Arc<Stats>]) {
             w2.wake_by_ref();
         }
     }
+    stats[task].wakes_returned.fetch_add(1, SeqCst);
     sim::log(|| format!("thread {}: wake of task {task} returned", simsched::me()));
+}
+
+/// What `raced_since` compares against: taken when a cancelling operation begins.
+fn cancel_begins(s: &Stats) -> (u32, u32, u32) {
+    (s.polls.load(SeqCst), s.wakes_begun.load(SeqCst), s.wakes_returned.load(SeqCst))
+}
+
+/// Whether the executor polled the task, or another thread was inside a wake of it, while the cancelling
+/// operation that began at `at` was under way.
+fn raced_since(s: &Stats, at: (u32, u32, u32)) -> bool {
+    let (polls, begun, returned) = at;
+    s.polls.load(SeqCst) != polls || begun != returned || s.wakes_begun.load(SeqCst) != begun
 }
 
 fn run_job(job: ThreadJob, world: &World, stats: &[Arc<Stats>], results: &Mutex<Vec<Option<Joined>>>) {
@@ -731,12 +770,22 @@ fn run_job(job: ThreadJob, world: &World, stats: &[Arc<Stats>], results: &Mutex<
             results.lock().unwrap()[i] = Some(classify(r));
         }
         ThreadJob::Drop(i, h) => {
+            let at = cancel_begins(&stats[i]);
+            sim::log(|| format!("a helper thread drops the handle of task {i}"));
             drop(h);
+            let raced = raced_since(&stats[i], at);
+            sim::log(|| format!("handle of task {i} dropped{}", if raced { " (the task was polled, or being woken by another thread, meanwhile)" } else { "" }));
+            stats[i].polled_during_cancel.store(raced, SeqCst);
             stats[i].cancelled_epoch.store(world.epoch.load(SeqCst), SeqCst);
         }
         ThreadJob::Cancel(i, h) => {
             // cancel() cancels and then waits for the outcome
+            let at = cancel_begins(&stats[i]);
+            sim::log(|| format!("a helper thread cancels task {i} and awaits the outcome"));
             let _ = block_on_parked(h.cancel(), &world.blocked);
+            let raced = raced_since(&stats[i], at);
+            sim::log(|| format!("cancel of task {i} returned{}", if raced { " (the task was polled, or being woken by another thread, meanwhile)" } else { "" }));
+            stats[i].polled_during_cancel.store(raced, SeqCst);
             let prev = stats[i].cancelled_epoch.load(SeqCst);
             if prev == u64::MAX {
                 stats[i].cancelled_epoch.store(world.epoch.load(SeqCst), SeqCst);
